@@ -321,6 +321,15 @@ def commit (o : Oracles) (s : St) : St :=
 /-- `Drop for Memvid`: commits only when `dirty` -/
 def dropCommit (o : Oracles) (s : St) : St := if s.dirty then commit o s else s
 
+/-- `Memvid::open` on the file a dropped handle left: the embedded Tantivy files are materialised in a new temporary
+    directory and trusted; a file that never had a snapshot embedded makes `init_tantivy` report a rebuild, and
+    `recover_wal` then flushes the (empty) index at once — one more Lex batch in the WAL -/
+def openFile (o : Oracles) (s : St) : St :=
+  if !s.lex then s else
+    let s2 := { s with workDir := o.tmp s.kTmp, kTmp := s.kTmp + 1, tantivyDirty := false }
+    if s.lexWritten then s2
+    else { s2 with wal := s.wal ++ [Rec.lexBatch (s.segs.map (·.name))], seq := s.seq + 1, lexWritten := true }
+
 /-- cards the extractor builds: one clock read per card -/
 def autoCards (o : Oracles) (k : Nat) (source : Nat) : List (Nat × Nat) → List Card
   | [] => []
@@ -362,11 +371,7 @@ def step (E : Engine) (o : Oracles) (s : St) : Op → St × Res
       ({ s with cards := s.cards ++ [{ slotKey := sk, value := v, source := src, auto := false, createdAt := created }], dirty := true },
        .ok s.cards.length)
   | .commit => (commit o s, .done)
-  | .reopen =>
-      let s1 := dropCommit o s
-      -- open (`init_tantivy`): embedded segments are materialised in a new temporary directory and trusted; a file
-      -- without any embedded snapshot makes it report a rebuild, which leaves `tantivy_dirty` set
-      (if s1.lex then { s1 with tantivyDirty := !s1.lexWritten, workDir := o.tmp s1.kTmp, kTmp := s1.kTmp + 1 } else s1, .done)
+  | .reopen => (openFile o (dropCommit o s), .done)
   | .search q => (s, .hits (E s.segs q))
 
 def runFrom (E : Engine) (o : Oracles) (s : St) : List Op → St × List Res
